@@ -977,3 +977,19 @@ package core
 //@   also-modifies sfFound
 //@ func (*Location).searchFactsAncestors$1
 //@   assert[C03+C09.ancestors_merge_what_each_search_returned] at "srs.Merge(more)": more.Found == sfFound
+
+// C08: "deleteWith removes exactly the dependents": every successful removal of an id runs the dependents cascade for that id
+// (in both state implementations; the cascade is observed through a ghost record of the id it last completed for).
+//@ ghost cascadeId string
+//@ func (*LinearState).deleteDependencies
+//@   ghost-ensures cascadeId == id
+//@   also-modifies cascadeId
+//@ func (*IndexedState).deleteDependencies
+//@   ghost-ensures cascadeId == id
+//@   also-modifies cascadeId
+//@ func (*LinearState).rem
+//@   assume-entry cascadeId == "?none"
+//@   ensures[C08.lin_rem_always_runs_the_cascade] result1 == nil ==> cascadeId == id
+//@ func (*IndexedState).rem
+//@   assume-entry cascadeId == "?none"
+//@   ensures[C08.ix_rem_always_runs_the_cascade] result1 == nil && (result0 || !old(has(s.IdToFact, id))) ==> cascadeId == id
